@@ -196,8 +196,9 @@ func fnHRandField(ctx *cmdContext, args map[string]any) (output respValue, err e
 
 	if options != nil {
 		count, hasCount := options.mustGet("count").(int64)
-		if hasCount && (count < -math.MaxInt64/2 || count > math.MaxInt64/2) {
-			// cannot be negated, or asks for more repeated elements than a reply can hold
+		if hasCount && count < -math.MaxInt64/2 {
+			// cannot be negated, or asks for more repeated elements than a reply can hold (a large positive
+			// count is fine: it means all of them)
 			output.data = respErrorString("ERR value is out of range")
 			return
 		}
